@@ -58,6 +58,12 @@ pub fn fen(tier: usize, seed: u64, out: &mut Out) {
     all_sources(POS_FEN[tier], seed, out, &mut |out, v, rng| {
         let b = v.board;
         with_raw(out, b, |out, r| out.emit(&format!("fen {r}"), &obs_fen(b)));
+        // the board OBJECT reached through make_move (incrementally maintained hash, masks, flag) must round-trip as well
+        if let Some(m) = v.played {
+            if let Some(nb) = catch(|| b.make_move(&m).ok()).flatten() {
+                with_raw(out, &nb, |out, r| out.emit(&format!("fen {r}"), &obs_fen(&nb)));
+            }
+        }
         let f = match catch(|| b.as_fen()) {
             Some(f) => f,
             None => return,
